@@ -42,7 +42,8 @@ def charge_case(draw):
             "mask": draw(st.sampled_from([["all"], ["all"], ["rand", 0, 0.9], ["box", [2, 3], [5, 6]], ["stripe", 0, 3]])),
             "rot_axis": draw(st.sampled_from([(0, 0, 1), (1, 0, 0), (1, 1, 0), (1, 2, 3), (-1, 1, 2)])),
             "rot_deg": draw(st.sampled_from([90, 30, 117, 180, 45, 271])),
-            "scale": draw(st.sampled_from([2.0, 0.5, 1e3, 1e-3, 7.3])), "k": draw(st.sampled_from([1, 2, 3, -1]))}
+            "scale": draw(st.sampled_from([2.0, 0.5, 1e3, 1e-3, 7.3])), "k": draw(st.sampled_from([1, 2, 3, -1])),
+            "far": draw(st.sampled_from([5, 6]))}
 
 
 def texture(case):
@@ -102,6 +103,9 @@ def check_charge(case):
         "mesh-rescaling": mk2d(case, arr, scale=case["scale"], mask=mask),
         "mesh-translation": mk2d(case, arr, shift=(17 * case["cell"][0], -5 * case["cell"][1]), mask=mask),
         "quarter-turn": f.rotate90("x", "y", k=case["k"]),
+        # a sample far from the origin (1e5 ... 1e6 cells away): coordinates carry 1e-11 ... 1e-10 of a cell of rounding
+        "mesh-far-translation": mk2d(case, arr, shift=(10.0 ** case.get("far", 5) * case["cell"][0],
+                                                       -3.0 * 10.0 ** case.get("far", 5) * case["cell"][1]), mask=mask),
     }
     res = {}
     for method in ("continuous", "berg-luescher"):
@@ -110,7 +114,7 @@ def check_charge(case):
         require(np.isfinite(q0), f"charge-not-finite-{method}")
         for name, fv in variants.items():
             q = dft.topological_charge(fv, method=method)
-            if abs(q - q0) > 1e-8 * max(1.0, abs(q0)):
+            if abs(q - q0) > (1e-6 if name == "mesh-far-translation" else 1e-8) * max(1.0, abs(q0)):
                 raise Violation(f"charge-not-invariant:{name}:{method}", f"{q0!r} -> {q!r} ({case['kind']}, Q={case['Q']}, "
                                                                          f"cells {case['cell']})")
         qm = dft.topological_charge(mk2d(case, -arr, mask=mask), method=method)
@@ -200,7 +204,9 @@ def hedgehog_case(draw):
     # 0.1 cells 0 of 342.  Cuboid samples: 0 of 794 up to 0.2 cells.
     jit = [0.0, 0.05, -0.1] if sphere else [0.0, 0.05, -0.1, 0.2]
     return {"n": n, "cell": cell, "vertex": vert, "jitter": [draw(st.sampled_from(jit)) for _ in range(3)],
-            "sign": draw(st.sampled_from([1, -1])), "off": [draw(st.integers(-5, 5)) for _ in range(3)],
+            "sign": draw(st.sampled_from([1, -1])),
+            "off": [draw(st.integers(-5, 5)) for _ in range(3)] if draw(st.integers(0, 2)) else
+                   [draw(st.sampled_from([100_000, -300_000, 1_000_000])) for _ in range(3)],
             "labels": draw(st.sampled_from([None, None, ["a", "b", "c"], ["mx", "my", "mz"]])),
             "mapping": draw(st.sampled_from([None, None, [1, 2, 0], [2, 0, 1], [1, 0, 2], [0, 1, 2]])),
             "sphere": sphere, "scale_len": draw(st.sampled_from([1.0, 8e5, 3e-3])),
